@@ -134,6 +134,58 @@ def _replay_cond(nrows, nfeat, weighted, by_list):
     return replay
 
 
+def _body_cond_multikey(nrows):
+    """two grouping columns, one of them numeric: groups are the distinct (k1, k2) combinations"""
+    def body():
+        import math
+        from pyrepseq import stats
+        from models import pd_model
+        from vlib import sym, symops as so
+        k1, k2, x = [], [], []
+        for r in range(nrows):
+            a = sym.sym_int(f"g{r}", 0, 1)
+            b = sym.sym_int(f"h{r}", 0, 1)
+            k1.append("p" if a == 0 else "q")
+            k2.append(7 if b == 0 else 3)
+            x.append(sym.sym_int(f"f0_{r}", 0, 1))
+        df = pd_model.DataFrame({"g1": k1, "g2": k2, "x0": x}, index=[50 + r for r in range(nrows)])
+        got = stats.pc_conditional(df, ["g1", "g2"], "x0")
+        groups = {}
+        for r in range(nrows):
+            groups.setdefault((k1[r], k2[r]), []).append(r)
+        big = [rows for rows in groups.values() if len(rows) > 1]
+        if not big:
+            return (isinstance(got, float) and math.isnan(got)), f"no multi-member group but {got!r}"
+        terms = [_pc_rows_term(so, [x], rows) for rows in big]
+        lcm = 1
+        for _, d in terms:
+            lcm = lcm * d // math.gcd(lcm, d)
+        rhs = so.total([so.mul(t[0], lcm // t[1]) for t in terms])
+        return so.close(so.mul(so.mul(got, len(big)), lcm), rhs, 1e-6), (lambda: f"pc_conditional(two keys) = {_realize(got)}")
+    return body
+
+
+def _replay_cond_multikey(nrows):
+    def replay(inputs):
+        import math
+        import pandas as pd
+        from pyrepseq import stats
+        k1 = ["p" if int(inputs[f"g{r}"]) == 0 else "q" for r in range(nrows)]
+        k2 = [7 if int(inputs[f"h{r}"]) == 0 else 3 for r in range(nrows)]
+        x = [int(inputs[f"f0_{r}"]) for r in range(nrows)]
+        df = pd.DataFrame({"g1": k1, "g2": k2, "x0": x}, index=[50 + r for r in range(nrows)])
+        got = stats.pc_conditional(df, ["g1", "g2"], "x0")
+        groups = {}
+        for r in range(nrows):
+            groups.setdefault((k1[r], k2[r]), []).append(r)
+        big = [rows for rows in groups.values() if len(rows) > 1]
+        if not big:
+            return isinstance(got, float) and math.isnan(got), f"{got!r}"
+        want = sum(float(_pc_rows([x], rows)) for rows in big) / len(big)
+        return abs(float(got) - want) <= 1e-9, f"pc_conditional(keys={list(zip(k1, k2))}, x={x}) = {got!r}, expected {want}"
+    return replay
+
+
 def _body_cross(nrows, nfeat):
     def body():
         import math
@@ -402,6 +454,9 @@ def conditions(tier):
         out.append(Condition(f"C13/pc_conditional/rows={nrows}/feat={nfeat}/" + ("weighted" if weighted else "uniform") + ("/bylist" if by_list else ""),
                              _body_cond(nrows, nfeat, weighted, by_list), _replay_cond(nrows, nfeat, weighted, by_list),
                              budget=600 if not T else 3000, models=M, bounds=f"{nrows} rows, symbolic group keys (<= 3 groups), {nfeat} feature column(s)"))
+    for nrows in (3,) + ((4,) if T else ()):
+        out.append(Condition(f"C13/pc_conditional/two-keys/rows={nrows}", _body_cond_multikey(nrows), _replay_cond_multikey(nrows),
+                             budget=600 if not T else 3000, models=M, bounds=f"{nrows} rows, two grouping columns (string and numeric keys)"))
     for nrows, nfeat in [(3, 1), (3, 2)] + ([(4, 1), (4, 2)] if T else []):
         out.append(Condition(f"C13/pc_grouped_cross/rows={nrows}/feat={nfeat}", _body_cross(nrows, nfeat), _replay_cross(nrows, nfeat),
                              budget=600 if not T else 3000, models=M, bounds=f"{nrows} rows, symbolic group keys, {nfeat} feature column(s)"))
